@@ -58,6 +58,11 @@ Definition no_blank_around (n : string) : bool := String.eqb (trim_space n) n.
 Definition tip_name_ok (n : string) : bool :=
   negb (String.eqb n "") && forall_chars name_char n && no_blank_around n.
 
+(** characters of a printed number: no metacharacter, no ';', no blank, no '/' *)
+Definition num_char (c : ascii) : bool :=
+  is_ident false c && negb (is_ws c) && negb (Ascii.eqb c "/").
+Definition no_slash (s : string) : bool := forall_chars (fun c => negb (Ascii.eqb c "/")) s.
+
 Definition comment_ok (c : string) : bool := forall_chars (fun x => negb (Ascii.eqb x "]")) c.
 
 Section Quantifier.
